@@ -354,6 +354,7 @@ pub fn run_endpoint(steps: Vec<Step>, mode: Mode, stop_after_msgs: Option<usize>
         }
     });
     let req = request_with_key(key);
+    let _call = crate::report::enter(format!("websocket endpoint, {:?} receive, script of {} segments", mode, sock.lock().unwrap().steps.len()).as_bytes());
     handler(req, Stream::Tcp(TcpStream::Script(sock.clone())), Arc::new(()));
     let out = sock.lock().unwrap().out.clone();
     let ev = events.lock().unwrap().clone();
